@@ -206,8 +206,10 @@ def r2(ctx):
     for s in sets:
         guards = [(vf.expr(fn, c), t) for c, t, br in es.guards_of(fn, s)]
         first = any(vf.mentions(g, lambda x: x == ("load", HRP)) and not t for g, t in guards)
-        ctx.check(vf.expr(fn, s["val"]) == ("c", 1) and first, "C13.R2", "receive:flag-set-by-first-header", s.loc(),
-                  "set to true under !has_received_pdus", key="C13.R2:set")
+        # setting the flag again on a later header changes nothing: the store may also be unconditional
+        never = any(vf.mentions(g, lambda x: x == ("load", HRP)) and t for g, t in guards)
+        ctx.check(vf.expr(fn, s["val"]) == ("c", 1) and not never, "C13.R2", "receive:flag-set-by-first-header", s.loc(),
+                  "set to true %s" % ("under !has_received_pdus" if first else ("only when it is already set" if never else "by every header")), key="C13.R2:set")
     # whatever the first PDU is (an Error Report as well), a header that passed the length checks uses up the first-PDU slot
     left = []
     ncell = 0
